@@ -356,6 +356,19 @@ SITES["C16"] += [
          atoms={"isinstance(source, ItemList)": ("srcIsList", B), "self._len": ("newLen", I), "source._len": ("srcLen", I)}),
 ]
 
+SITES["C13"] += [
+    dict(file="pipeline/builder.py", cls="PipelineBuilder", fn="build_config", mode="branch", select="self._default_connections", lean="defaultConnectionBranch",
+         atoms={"iname not in c_ins": ("unwired", B), "iname in self._default_connections": ("hasDefault", B)}),
+    dict(file="pipeline/builder.py", cls="PipelineBuilder", fn="build_config", mode="branch", select="include_hash", lean="includeHashBranch",
+         atoms={"include_hash": ("includeHash", B)}),
+    dict(file="pipeline/builder.py", cls="PipelineBuilder", fn="build_config", mode="branch", select="self._default", exact=True, lean="defaultNodeBranch",
+         atoms={"self._default": ("dflt", O)}),
+    dict(file="pipeline/builder.py", cls="PipelineBuilder", fn="from_config", mode="branch", select="cfg.meta.hash is not None", lean="recordedHashBranch",
+         atoms={"cfg.meta.hash": ("recorded", O)}),
+    dict(file="pipeline/builder.py", cls="PipelineBuilder", fn="from_config", mode="branch", select="h2 != cfg.meta.hash", lean="hashMismatchBranch",
+         atoms={"h2": ("computed", I), "cfg.meta.hash": ("recorded", O)}),
+]
+
 # the runner's decisions (C02): what a request of a finished / running node yields, when an input or a dependency is reported missing or
 # ill-typed, when a dependency is required of its source, and when a component that is not required bails out
 _RUN = dict(file="pipeline/runner.py", cls="PipelineRunner")
